@@ -1590,20 +1590,17 @@ class Module(ABC):
             num_inserted,
         ], "Number of comps and stimuli do not match."
 
+        inds_in_view = self._nodes_in_view if key in comp_states else self._edges_in_view
         if key in self.base.externals.keys():
             self.base.externals[key] = jnp.concatenate(
                 [self.base.externals[key], values]
             )
             self.base.external_inds[key] = jnp.concatenate(
-                [self.base.external_inds[key], self._nodes_in_view]
+                [self.base.external_inds[key], inds_in_view]
             )
         else:
-            if key in comp_states:
-                self.base.externals[key] = values
-                self.base.external_inds[key] = self._nodes_in_view
-            else:
-                self.base.externals[key] = values
-                self.base.external_inds[key] = self._edges_in_view
+            self.base.externals[key] = values
+            self.base.external_inds[key] = inds_in_view
         if verbose:
             print(
                 f"Added {num_inserted} external_states. See `.externals` for details."
